@@ -134,8 +134,8 @@ func selftest(args []string) int {
 						fmt.Printf("selftest caught %s %s: %v %v\n", p, name, failed, firstN(res.Errors, 2))
 					}
 				} else {
-					if len(failed) > 0 || nErr > 0 {
-						fmt.Printf("SELFTEST-FALSE-ALARM %s %s: benign variant fails: %v %v %v %s\n", p, name, failed, res.Errors, res.Vacuous, res.LoadErr)
+					if len(failed) > 0 || nErr > 0 || len(res.Missing) > 0 {
+						fmt.Printf("SELFTEST-FALSE-ALARM %s %s: benign variant fails: %v %v %v %s missing=%v\n", p, name, failed, res.Errors, res.Vacuous, res.LoadErr, firstN(res.Missing, 3))
 						bad++
 					} else {
 						fmt.Printf("selftest benign ok %s %s\n", p, name)
